@@ -25,6 +25,11 @@ struct Params {
     scale: f64,
     demand: f64,
     ratio: f64,
+    /// location of the agents' limit-price distribution (0: quotes next to the mid-price; 6: about
+    /// 400 ticks behind it, where nothing ever fills them)
+    mu: f64,
+    /// the harness re-quotes by cancelling only its OWN quotes: the agents' limit orders stay
+    mut_keep: bool,
 }
 
 impl Params {
@@ -39,8 +44,8 @@ impl Params {
             demand: self.demand,
             scale: self.scale,
             ratio: self.ratio,
-            mu: 0.0,
-            sigma: 1.0,
+            mu: self.mu,
+            sigma: if self.mu == 0.0 { 1.0 } else { 0.1 },
         }
     }
 }
@@ -72,7 +77,7 @@ fn drive(p: &Params, levels: &[i64], last_script: &[Ans], seed: u64) -> Result<R
             let orders = w.orders();
             let mut any = false;
             for o in &orders {
-                if o.status == ACTIVE {
+                if o.status == ACTIVE && !(p.mut_keep && o.trader >= 20 && o.trader < 20 + p.n as u32) {
                     w.cancel_foreign(o.id);
                     any = true;
                 }
@@ -192,6 +197,10 @@ fn judge_flow(p: &Params, round: usize, m: f64, flow: &Flow, last: Option<&[f64]
     Ok(())
 }
 
+fn rounds_ctr_add(c: &AtomicU64, n: u64) {
+    c.fetch_add(n, Ordering::Relaxed);
+}
+
 fn mirror(p: &Params, f: &Flow) -> Flow {
     let mut out: Flow = f
         .iter()
@@ -247,7 +256,7 @@ pub fn c17(tier: &str) -> i32 {
                             if !t && (multi && tick == 2 && n == 2) {
                                 continue;
                             }
-                            params.push(Params { centre: CENTRE, big_moves: false, multi, tick, n, decay, scale, demand, ratio });
+                            params.push(Params { centre: CENTRE, big_moves: false, multi, tick, n, decay, scale, demand, ratio, mu: 0.0, mut_keep: false });
                         }
                     }
                 }
@@ -261,7 +270,7 @@ pub fn c17(tier: &str) -> i32 {
             for decay in [1.0, 0.5] {
                 for (demand, scale) in [(-100.0, 0.5), (100.0, -0.5), (-100.0, -0.5), (-0.6 * n as f64, 10.0)] {
                     for ratio in [0.0, 1.0] {
-                        params.push(Params { centre: CENTRE, big_moves: false, multi, tick: 1, n, decay, scale, demand, ratio });
+                        params.push(Params { centre: CENTRE, big_moves: false, multi, tick: 1, n, decay, scale, demand, ratio, mu: 0.0, mut_keep: false });
                     }
                 }
             }
@@ -273,7 +282,7 @@ pub fn c17(tier: &str) -> i32 {
             for decay in [1.0, 0.5] {
                 for (demand, ratio) in [(100.0, 0.0), (100.0, 1.0)] {
                     for big_moves in [false, true] {
-                        params.push(Params { centre: 20_000_011, big_moves, multi, tick: 1, n, decay, scale: 0.5, demand, ratio });
+                        params.push(Params { centre: 20_000_011, big_moves, multi, tick: 1, n, decay, scale: 0.5, demand, ratio, mu: 0.0, mut_keep: false });
                     }
                 }
             }
@@ -377,6 +386,47 @@ pub fn c17(tier: &str) -> i32 {
             });
         }
     });
+    // long trends: 40 rounds of a steadily rising / falling / alternating mid-price at saturated
+    // demand, the agents' own limit orders resting far behind the touch and never cancelled (the
+    // harness re-quotes by cancelling only its own orders): the flow of round 30 must follow the
+    // same rule as the flow of round 3, whatever has accumulated in between
+    let mut long_runs = 0u64;
+    for multi in [false, true] {
+        for n in [1u16, 2] {
+            for (pname, step) in [("rising", 2i64), ("falling", -2), ("rising by half ticks", 1)] {
+                let p = Params { centre: 5000, big_moves: false, multi, tick: 1, n, decay: 1.0, scale: 0.5, demand: 100.0, ratio: 1.0, mu: 6.0, mut_keep: true };
+                let n_rounds: i64 = if t { 80 } else { 40 };
+                let levels: Vec<i64> = (0..n_rounds).map(|k| 2 * p.centre + step * k).collect();
+                let mirrored: Vec<i64> = (0..n_rounds).map(|k| 2 * p.centre - step * k).collect();
+                long_runs += 2;
+                execs.fetch_add(2, Ordering::Relaxed);
+                let replay = json!({"engine": "c17", "scenario": "long trend", "params": format!("{:?}", p), "path": pname, "rounds": n_rounds});
+                match (drive(&p, &levels, &[], 3), drive(&p, &mirrored, &[], 3)) {
+                    (Ok(a), Ok(b)) => {
+                        rounds_ctr_add(&rounds, 2 * levels.len() as u64);
+                        let (ms, ms_b) = (momentum_series(&p, &a.mids), momentum_series(&p, &b.mids));
+                        for r in 0..levels.len() {
+                            for (m, f) in [(ms[r], &a.flows[r]), (ms_b[r], &b.flows[r])] {
+                                if let Err((c, d)) = judge_flow(&p, r, m, f, None) {
+                                    fails.lock().unwrap().entry(format!("momentum/{}", c)).or_insert((format!("long trend ({}), {}", pname, d), replay.clone()));
+                                }
+                            }
+                            if mirror(&p, &a.flows[r]) != b.flows[r] {
+                                fails.lock().unwrap().entry("momentum/mirrored-path-not-mirrored-flow".to_string()).or_insert((
+                                    format!("long trend ({}), round {}: flow {:?}, on the mirrored path {:?}", pname, r, a.flows[r], b.flows[r]),
+                                    replay.clone(),
+                                ));
+                            }
+                        }
+                    }
+                    (Err(m), _) | (_, Err(m)) => {
+                        fails.lock().unwrap().entry(format!("momentum/abort/{}", util::panic_sig(&m))).or_insert((m, replay));
+                    }
+                }
+            }
+        }
+    }
+    out.set("long_trends", json!({"runs": long_runs, "rounds_each": if t { 80 } else { 40 }, "rule": "steadily rising / falling mid-price at saturated demand with order ratio 1, the agents' limit orders rest 400 ticks behind the touch and accumulate: one market and one limit order per trader in every round, mirrored flow on the mirrored path"}));
     let e = execs.load(Ordering::Relaxed);
     out.set("states", json!(e));
     out.set("transitions", json!(rounds.load(Ordering::Relaxed)));
